@@ -82,6 +82,13 @@ def defColl (fs : List String) : Option Coll :=
         let obs := ((field fs "obs").bind parseF64List).getD []
         let s := ((Hist.new histBounds).observeAll f64Add obs).snap
         some { descs := [d], fams := [mkFam d .histogram [{ labels := d.constPairs, val := .hist s.count s.sum (histBounds.zip s.cum) }]] }
+      else if kind == "histogramvec" then
+        if d.varLabels.contains leBytesR || d.constPairs.any (·.name == leBytesR) then none else
+        let children := ((field fs "children").map fun c => if c == "none" then [] else (c.splitOn ";").filterMap parseHexList).getD []
+        let samples := (children.zipIdx).map fun (vals, i) =>
+          let s := ((Hist.new histBounds).observeAll f64Add (List.replicate (i + 1) 0x3FF0000000000000)).snap
+          ({ labels := labelsOf d vals, val := .hist s.count s.sum (histBounds.zip s.cum) } : Sample)
+        some { descs := [d], fams := [mkFam d .histogram samples] }
       else if kind == "countervec" || kind == "gaugevec" then
         let children := ((field fs "children").map fun c => if c == "none" then [] else (c.splitOn ";").filterMap parseHexList).getD []
         let ty := if kind == "countervec" then MType.counter else MType.gauge
